@@ -738,3 +738,110 @@ Proof.
   simpl in Hin. destruct Hin as [Hin|Hin]; [discriminate|]. exact (IH Hin).
 Qed.
 
+
+(* ------------------------------------------------------------------ plain trees *)
+
+(* the hashed files have pairwise distinct relative paths whose components are non-empty, contain
+   no '/', no '\' (not K18b), no ill-formed UTF-8 / U+FFFD (not K18c) and no newline (not K18a) *)
+Definition tree_plain (root : list str) (files : list file) : Prop :=
+  Forall (fun f => rel_plain (fst f) /\ Forall nl_free (fst f)) (filter (visible root) files) /\
+  NoDup (map fst (filter (visible root) files)).
+
+Lemma tree_plain_premises root files :
+  tree_plain root files -> paths_nl_free root files /\ NoDup (shown_paths root files).
+Proof.
+  intros [F Hn]. unfold paths_nl_free, shown_paths, shown. split.
+  - rewrite Forall_map. eapply Forall_impl; [|exact F]. intros f [[_ Hp] Hnl].
+    apply render_plain_nl; assumption.
+  - rewrite <- (map_map fst render_rel). apply render_plain_nodup; [|exact Hn].
+    rewrite Forall_map. eapply Forall_impl; [|exact F]. intros f [Hp _]. exact Hp.
+Qed.
+
+Theorem module_hash_iff_plain sha sha_text root1 files1 root2 files2 :
+  sha_ok sha ->
+  (forall a b, a = encode_tree (hash_tree_entries sha root1 files1) ->
+               b = encode_tree (hash_tree_entries sha root2 files2) ->
+               sha_text a = sha_text b -> a = b) ->
+  sha_inj_on sha (tree_content root1 files1) (tree_content root2 files2) ->
+  tree_plain root1 files1 -> tree_plain root2 files2 ->
+  (module_hash sha sha_text root1 (NDir files1) = module_hash sha sha_text root2 (NDir files2) <->
+   same_content (tree_content root1 files1) (tree_content root2 files2)).
+Proof.
+  intros Hs Ht Hi P1 P2. apply tree_plain_premises in P1 as [A1 B1]. apply tree_plain_premises in P2 as [A2 B2].
+  apply module_hash_iff; assumption.
+Qed.
+
+Theorem entries_order_plain sha root files files' :
+  tree_plain root files -> Permutation files files' ->
+  hash_tree_entries sha root files' = hash_tree_entries sha root files.
+Proof. intros P. apply tree_plain_premises in P as [_ B]. apply entries_order. exact B. Qed.
+
+(* ------------------------------------------------------------------ boolean version of tree_plain *)
+
+Definition char_plain_b (x : N) : bool :=
+  negb (x =? 47) && negb (x =? 92) && negb (x =? 65533) && is_scalar x.
+Definition comp_plain_b (c : str) : bool := negb (is_empty c) && forallb char_plain_b c.
+Definition rel_plain_b (p : list str) : bool :=
+  negb (match p with [] => true | _ => false end) && forallb comp_plain_b p.
+Definition nl_free_b (x : str) : bool := negb (mem_char 10 x).
+
+Fixpoint path_eqb (a b : list str) : bool :=
+  match a, b with
+  | [], [] => true
+  | x :: a', y :: b' => str_eqb x y && path_eqb a' b'
+  | _, _ => false
+  end.
+
+Fixpoint nodup_b (l : list (list str)) : bool :=
+  match l with
+  | [] => true
+  | p :: r => negb (existsb (path_eqb p) r) && nodup_b r
+  end.
+
+Definition tree_plain_b (root : list str) (files : list file) : bool :=
+  let sh := filter (visible root) files in
+  forallb (fun f => rel_plain_b (fst f) && forallb nl_free_b (fst f)) sh && nodup_b (map fst sh).
+
+Lemma path_eqb_refl a : path_eqb a a = true.
+Proof. induction a as [|x a IH]; simpl; [reflexivity|]. rewrite str_eqb_refl, IH. reflexivity. Qed.
+
+Lemma nodup_b_ok l : nodup_b l = true -> NoDup l.
+Proof.
+  induction l as [|p r IH]; simpl; intros H; [constructor|].
+  apply andb_true_iff in H as [H1 H2]. constructor; [|apply IH, H2].
+  intros Hin. apply negb_true_iff in H1.
+  assert (E : existsb (path_eqb p) r = true) by (apply existsb_exists; exists p; split; [exact Hin|apply path_eqb_refl]).
+  congruence.
+Qed.
+
+Lemma nl_free_b_ok x : nl_free_b x = true -> nl_free x.
+Proof.
+  unfold nl_free_b, mem_char, nl_free. intros H Hin. apply negb_true_iff in H.
+  assert (E : existsb (N.eqb 10) x = true) by (apply existsb_exists; exists 10; split; [exact Hin|reflexivity]).
+  congruence.
+Qed.
+
+Lemma comp_plain_b_ok c : comp_plain_b c = true -> comp_plain c.
+Proof.
+  unfold comp_plain_b, comp_plain. intros H. apply andb_true_iff in H as [H1 H2]. split.
+  - intros ->. discriminate.
+  - rewrite forallb_forall in H2. apply Forall_forall. intros x Hx. apply H2 in Hx.
+    unfold char_plain_b in Hx. repeat split; try (intros ->; discriminate).
+    apply andb_true_iff in Hx as [_ Hx]. exact Hx.
+Qed.
+
+Lemma rel_plain_b_ok p : rel_plain_b p = true -> rel_plain p.
+Proof.
+  unfold rel_plain_b, rel_plain. intros H. apply andb_true_iff in H as [H1 H2]. split.
+  - intros ->. discriminate.
+  - rewrite forallb_forall in H2. apply Forall_forall. intros c Hc. apply comp_plain_b_ok, H2, Hc.
+Qed.
+
+Lemma tree_plain_b_ok root files : tree_plain_b root files = true -> tree_plain root files.
+Proof.
+  unfold tree_plain_b, tree_plain. intros H. apply andb_true_iff in H as [H1 H2]. split.
+  - rewrite forallb_forall in H1. apply Forall_forall. intros f Hf. apply H1 in Hf.
+    apply andb_true_iff in Hf as [Ha Hb]. split; [apply rel_plain_b_ok, Ha|].
+    rewrite forallb_forall in Hb. apply Forall_forall. intros c Hc. apply nl_free_b_ok, Hb, Hc.
+  - apply nodup_b_ok, H2.
+Qed.
